@@ -105,7 +105,9 @@ def search(ctx, strength):
     if have is not None and (have[0] == strength or have[0] == "thorough"):
         res = have[1]
     else:
-        r = ctx.run_impl("c03_impl.py", {"mode": "search", "strength": strength}, timeout=5400)
+        # escalated search after a broken tie/proof in the quick tier: bounded (thorough tier: unbounded)
+        r = ctx.run_impl("c03_impl.py", {"mode": "search", "strength": strength,
+                                         "budget": 1e9 if ctx.tier == "thorough" else 420}, timeout=5400)
         if r is None:
             return
         res = r["search"]
